@@ -152,6 +152,19 @@ def run(prop, tier, replay=None):
                         viol[key] = dict(property=prop, formula=f[2], seed=sd, cases=[s_], observed=ev, signature=sig, more=0, replay_driver="proxy",
                                          what="%s: proxied %s %s n=%d failAt=%s failK=%d: %d call(s) on the interceptor's stream in progress at or begun after the forwarder's return" % (
                                              f[2], s_["shape"], s_["mode"], s_["n"], s_["failAt"], s_["failK"], v_["ilate"]))
+            # ---- several backends for one service (a local handler and two connections, each with descriptors of its own),
+            # path variables in the bindings, readers only: the serving paths alone under the race detector
+            if not replay:
+                st = scratch.path("static%d.ndjson" % k)
+                sp, _ = C.run([race, "regstress", "-static", "-out", st, "-seed", str(sd), "-dur", "3s" if tier == "quick" else "15s", "-maxreq", "1000"], timeout=1200,
+                              env=dict(os.environ, GORACE="halt_on_error=0"))
+                stat["multi_backend_race_runs"] += 1
+                if "WARNING: DATA RACE" in sp.stdout:
+                    viol[("DataRace", "multibackend", sd)] = dict(property=prop, formula="DataRace", seed=sd, cases=[], more=0, replay_driver="regstress",
+                                                                 signature=dict(module="Registry", formula="DataRace", proto="multibackend"),
+                                                                 what="race detector report while serving a service with three backends (seed %d): %s" % (sd, sp.stdout[sp.stdout.index("WARNING: DATA RACE"):][:500].replace("\n", " | ")))
+                elif sp.returncode != 0:
+                    raise C.Infra("regstress -static (race build) failed:\n" + sp.stdout[-3000:])
             # split: Rpc events to RpcTrace, Retain events to PoolTrace
             rt, pt = scratch.path("rpc%d.ndjson" % k), scratch.path("pool%d.ndjson" % k)
             with open(rt, "w") as fr, open(pt, "w") as fp:
